@@ -10,9 +10,45 @@ import (
 // lemmaObligations: lemmas are closed statements over spec functions, tables
 // and an arbitrary heap; parameters are universally quantified (fresh constants).
 func (p *Program) lemmaObligations(prop string) (obls []*Obligation, errs []string) {
+	// `cases` clauses: the enumerated integer parameters take every value of their
+	// range in turn (the lemma is stated, and proved, for exactly those values)
+	type lemmaInst struct {
+		lm    *Lemma
+		combo map[string]int64
+	}
+	var insts []lemmaInst
 	for _, lm := range p.lemmas {
 		if prop != "" && !hasStr(lm.Props, prop) {
 			continue
+		}
+		combos := []map[string]int64{{}}
+		for _, cs := range lm.Cases {
+			var next []map[string]int64
+			for _, c := range combos {
+				for v := cs.Lo; v <= cs.Hi; v++ {
+					n := map[string]int64{cs.Param: v}
+					for k, x := range c {
+						n[k] = x
+					}
+					next = append(next, n)
+				}
+			}
+			combos = next
+			if len(combos) > 256 {
+				errs = append(errs, fmt.Sprintf("lemma %s: too many cases", lm.Name))
+				combos = nil
+				break
+			}
+		}
+		for _, c := range combos {
+			insts = append(insts, lemmaInst{lm, c})
+		}
+	}
+	for _, in := range insts {
+		lm, combo := in.lm, in.combo
+		suffix := ""
+		for _, cs := range lm.Cases {
+			suffix += fmt.Sprintf("[%s=%d]", cs.Param, combo[cs.Param])
 		}
 		st := &State{pc: True, cells: map[*ssa.Alloc]Val{}, heap: map[string]*Term{}, ghost: map[string]*Term{}, alloc: Var("alloc@0", SInt)}
 		st.assume(Le(IntLit(0), st.alloc))
@@ -40,6 +76,12 @@ func (p *Program) lemmaObligations(prop string) (obls []*Obligation, errs []stri
 					panic(elabErr{"parameter " + d.Name + " has unsupported type " + d.Type})
 				}
 				v := Fresh("lm."+lm.Name+"."+d.Name, s)
+				if cv, ok := combo[d.Name]; ok {
+					if s != SInt {
+						panic(elabErr{"cases parameter " + d.Name + " is not an integer"})
+					}
+					v = IntLit(cv)
+				}
 				st.assume(typeInv(typ, v, st.alloc))
 				env.vars[d.Name] = SVal{T: v, Typ: typ}
 			}
@@ -50,13 +92,13 @@ func (p *Program) lemmaObligations(prop string) (obls []*Obligation, errs []stri
 				}
 				st.assume(t)
 			}
-			obls = append(obls, &Obligation{Name: "lemma." + lm.Name + "#vacuity:requires#1", Kind: "vacuity", Func: "lemma " + lm.Name, PC: st.pc, Goal: True, ExpectSat: true, Pos: fmt.Sprintf("line %d", lm.Line), Desc: "lemma hypotheses are satisfiable", Props: lm.Props})
+			obls = append(obls, &Obligation{Name: "lemma." + lm.Name + suffix+"#vacuity:requires#1", Kind: "vacuity", Func: "lemma " + lm.Name, PC: st.pc, Goal: True, ExpectSat: true, Pos: fmt.Sprintf("line %d", lm.Line), Desc: "lemma hypotheses are satisfiable", Props: lm.Props})
 			for i, en := range lm.Ensures {
 				t, err := env.ElabBool(en.Expr)
 				if err != nil {
 					panic(elabErr{fmt.Sprintf("ensures: %v", err)})
 				}
-				o := &Obligation{Name: fmt.Sprintf("lemma.%s#ensures:%s#%d", lm.Name, en.Text, i+1), Kind: "lemma", Func: "lemma " + lm.Name, PC: st.pc, Goal: t, Pos: fmt.Sprintf("line %d", lm.Line), Desc: "lemma conclusion", Props: lm.Props}
+				o := &Obligation{Name: fmt.Sprintf("lemma.%s%s#ensures:%s#%d", lm.Name, suffix, en.Text, i+1), Kind: "lemma", Func: "lemma " + lm.Name, PC: st.pc, Goal: t, Pos: fmt.Sprintf("line %d", lm.Line), Desc: "lemma conclusion", Props: lm.Props}
 				if t == True {
 					o.Verdict, o.Solver = "unsat", "simplifier"
 				}
